@@ -4,7 +4,8 @@ LEVEL = "proof"
 FUNCTIONS = ["uxarray.grid.grid.Grid.__eq__", "uxarray.grid.grid.Grid.__ne__",
     "uxarray.grid.grid.Grid.node_lon", "uxarray.grid.grid.Grid.node_lat",
     "uxarray.grid.coordinates._populate_node_latlon",
-    "uxarray.grid.coordinates._set_desired_longitude_range"]
+    "uxarray.grid.coordinates._set_desired_longitude_range",
+    'uxarray.grid.grid.Grid.copy']
 CUSTOM_REPLAY = {
     "uxarray.grid.grid.Grid.__eq__": {"module": "standins.C20", "function": "replay_eq"},
     "uxarray.grid.grid.Grid.__ne__": {"module": "standins.C20", "function": "replay_eq"},
